@@ -9,7 +9,8 @@ CONSTANTS MaxNodes, NConds, NV
 
 Nil == [k |-> "nil"]
 \* alts: the alternatives written in this node's block, in order (each may have alternatives in its own block)
-Node(tag, cond, ref, alts) == [k |-> "node", tag |-> tag, cond |-> cond, ref |-> ref, alts |-> alts]
+\* reflast: the refinement block was written after (some of) the alternative blocks of the same node
+Node(tag, cond, ref, alts) == [k |-> "node", tag |-> tag, cond |-> cond, ref |-> ref, alts |-> alts, reflast |-> FALSE]
 
 \* branch conditions over the base's variables
 Conds ==
@@ -33,8 +34,9 @@ Top == open[Len(open)]
 \* `with refinement(c):` / `with alternative(c):` inside the block of the node on top of the stack
 OpenBranch(kind, c) ==
   /\ done = <<>> /\ n < MaxNodes
-  /\ (kind = "ref" => Top.node.ref = Nil /\ Top.node.alts = <<>>)     \* refinement first, then alternatives
-  /\ open' = Append(open, [node |-> Node(n + 1, Conds[c], Nil, <<>>), as |-> kind])
+  /\ (kind = "ref" => Top.node.ref = Nil)                               \* one refinement per node, before or after alternatives
+  /\ open' = Append(IF kind = "ref" THEN [open EXCEPT ![Len(open)].node.reflast = (Top.node.alts # <<>>)] ELSE open,
+                    [node |-> Node(n + 1, Conds[c], Nil, <<>>), as |-> kind])
   /\ n' = n + 1 /\ UNCHANGED done
 \* leaving the innermost block attaches the finished node to its parent
 CloseBranch ==
